@@ -21,28 +21,42 @@ from vlib.core import enc_list, enc_rat, enc_ratlist, enc_bool, dec_list, dec_ra
 
 TOL = Fraction(1, 10 ** 9)
 TOL_TOK = '1/1000000000'
+TOL32 = Fraction(2, 10 ** 5)            # DESIGN 8: float32 paths
+TOL32_TOK = '1/50000'
+CAST = {'float': 'float64', 'float64': 'float64', 'float32': 'float32', 'int': 'int', 'int64': 'int'}
 ERRORS = (ValueError, IndexError, TypeError, KeyError, ZeroDivisionError, AttributeError, NotImplementedError)
 
 RULE = ('random operator expressions (depth <= 4 quick, <= 5 thorough) over SparseLR / Regularizer / Normalizer / '
         'Laplacian / CoNeighbor / Polynome leaves on random rectangular sparse matrices (null rows and columns, '
-        'negative and explicit-zero entries, duplicate and unsorted CSR storage), integer entries with a share of '
-        'dyadic, non-dyadic and negative regularisations; every expression is applied to a vector, to a 2-d array, through a '
-        'direct 2-d _matvec call, transposed, and summed along both axes when it is a SparseLR; a share of '
-        'ill-shaped expressions checks the errors; exhaustive 0/1 matrices of shape <= 2x2 for every leaf class; '
+        'negative and explicit-zero entries, duplicate and unsorted CSR storage) of dtype float64, float32, int32, int64 and '
+        'bool, integer entries with a share of dyadic, non-dyadic and negative regularisations; operations: negation, sum, '
+        'difference, scaling from the right and from the left (c * op), transposition (also of scipy sum / scaled operators), '
+        'sparse products, astype to float64 / float32 / int (truncating the stored parts), normalize, format conversions; '
+        'every expression is queried with stored probes (float64, int64, bool, float32 vectors and 2-d arrays) through '
+        'dot, matvec, @, matmat, a direct 2-d _matvec, .T.dot, .H.dot, rmatvec, rmatmat, shape, class, and summed along '
+        'both axes when it is a SparseLR; a share of the expressions is built on the original arguments, which must be '
+        'unchanged afterwards; a share of ill-shaped expressions checks the errors (same exception class required); '
+        'exhaustive 0/1 matrices of shape <= 2x2 for every leaf class; zero-sized dimensions and 2-d arrays without columns; '
         'programs (DAGs) over operator OBJECTS of all six classes in which the same object takes part in several operations '
-        '(sum, difference, scaling, negation, transposition, sparse products, conversions) and is used again: after every '
-        'statement the operands and the result are re-evaluated against their own denotation ("operand unchanged"); '
-        'utilities on the same matrices, label vectors with negatives and gaps, scores with ties; '
+        '(sum, difference, both scalings, negation, transposition, sparse products, astype, conversions) and is used again: '
+        'after every statement the operands and the result are re-evaluated against their own denotation ("operand unchanged"); '
+        'utilities on the same matrices (format conversions and tf-idf judged by their documented definitions written '
+        'entry by entry, D2USpec / B2DSpec / B2USpec / TfidfSpec), label vectors with negatives and gaps, scores with ties; '
         'a case is non-trivial when the matrix has a stored entry (labels: a non-negative label; scores: >= 2 scores); '
-        'distinct = distinct (entry point, expression / arguments, query)')
+        'distinct = distinct (entry point, expression / arguments, query, probe)')
 ASSUMPTIONS = [
-    'scipy sparse algebra (+, unary -, scalar *, .T, .dot, bmat, diags, astype) and scipy LinearOperator dispatch '
+    'scipy sparse algebra (+, unary -, scalar *, .T, .dot, maximum, bmat, diags, astype) and scipy LinearOperator dispatch '
     '(dot on 2-d arrays stacks _matvec of the columns; _SumLinearOperator, _ScaledLinearOperator, '
-    '_TransposedLinearOperator) are the substrate, modelled by their entrywise definitions and monitored through the outputs',
+    '_TransposedLinearOperator, _AdjointLinearOperator of scipy 1.18: their layout is checked at start, another layout is a '
+    'tool failure) are the substrate, modelled by their entrywise definitions and monitored through the outputs',
     'np.sqrt (Laplacian(normalized_laplacian=True), get_norms(p=2)) and np.log (get_tfidf) are external: their values '
     'enter the model as data, with the contract sqrt(x)^2 = x, log checked against math.log in Python within TOL',
     'np.argsort / np.argpartition return some sorting / partitioning permutation (top_k compared up to ties through TopKSpec)',
     'dense ndarray adjacency arguments of the operator classes are covered by C01, not here',
+    'domain: a Normalizer has at least one column and a Laplacian at least one node (the definitions divide by the number of '
+    'columns); matrices whose stored entries are all explicit zeros are not built for CoNeighbor / Polynome (Mat has no '
+    'notion of stored entries); float32 rounding is outside the rational model (tolerance 2e-5 on those paths); astype(int) '
+    'is compared with the specification only where the stored parts are integers (cast of the parts, not of the matrix)',
 ]
 
 
@@ -106,28 +120,35 @@ def dec_mat(tokens):
 # ----------------------------------------------------------------------------------------------
 # operator expressions (python side): nested tuples
 # ----------------------------------------------------------------------------------------------
+_COPY_INPUTS = True
+
+
+def _arg(m):
+    return m.copy() if _COPY_INPUTS else m
+
+
 def build(e):
     """Evaluate an expression with the real code; leaves are rebuilt every time (some operations work in place)."""
     from sknetwork.linalg import SparseLR, Regularizer, Normalizer, Laplacian, CoNeighbor, Polynome, normalize
     from sknetwork.utils.format import directed2undirected, bipartite2directed, bipartite2undirected
     op = e[0]
     if op == 'slr':
-        tuples = [(np.array(x, dtype=float), np.array(y, dtype=float)) for x, y in e[2]]
+        tuples = [(np.array(x), np.array(y)) for x, y in e[2]]          # the dtypes of the generator are kept
         if len(tuples) == 1 and e[3]:
-            return SparseLR(e[1].copy(), tuples[0])          # a single tuple instead of a list
-        return SparseLR(e[1].copy(), tuples)
+            return SparseLR(_arg(e[1]), tuples[0])          # a single tuple instead of a list
+        return SparseLR(_arg(e[1]), tuples)
     if op == 'reg':
-        return Regularizer(e[1].copy(), e[2])
+        return Regularizer(_arg(e[1]), e[2])
     if op == 'nrm':
         if len(e) > 3 and e[3] and e[1].shape[0] == 1:
             return Normalizer(e[1].toarray().ravel(), e[2])      # 1-d adjacency: reshaped to one row by __init__
-        return Normalizer(e[1].copy(), e[2])
+        return Normalizer(_arg(e[1]), e[2])
     if op == 'lap':
-        return Laplacian(e[1].copy(), e[2], e[3])
+        return Laplacian(_arg(e[1]), e[2], e[3])
     if op == 'con':
-        return CoNeighbor(e[1].copy(), e[2])
+        return CoNeighbor(_arg(e[1]), e[2])
     if op == 'pol':
-        return Polynome(e[1].copy(), np.array(e[2], dtype=float))
+        return Polynome(_arg(e[1]), np.array(e[2], dtype=float))
     if op == 'neg':
         return -build(e[1])
     if op == 'add':
@@ -135,17 +156,19 @@ def build(e):
     if op == 'sub':
         return build(e[1]) - build(e[2])
     if op == 'addcsr':
-        return build(e[1]) + e[2].copy()
+        return build(e[1]) + _arg(e[2])
     if op == 'subcsr':
-        return build(e[1]) - e[2].copy()
+        return build(e[1]) - _arg(e[2])
     if op == 'mul':
         return build(e[1]) * e[2]
+    if op == 'rmul':
+        return e[1] * build(e[2])
     if op == 'T':
         return build(e[1]).T
     if op == 'ldot':
-        return build(e[2]).left_sparse_dot(e[1].copy())
+        return build(e[2]).left_sparse_dot(_arg(e[1]))
     if op == 'rdot':
-        return build(e[1]).right_sparse_dot(e[2].copy())
+        return build(e[1]).right_sparse_dot(_arg(e[2]))
     if op == 'astype':
         return build(e[1]).astype(e[2])
     if op == 'd2u':
@@ -186,7 +209,9 @@ def enc_expr(e):
     if op in ('neg', 'T', 'd2u', 'b2d', 'b2u', 'normalize'):
         return '%s %s' % (op, enc_expr(e[1]))
     if op == 'astype':
-        return 'astype %s' % enc_expr(e[1])
+        return 'astype %s %s' % (CAST[e[2]], enc_expr(e[1]))
+    if op == 'rmul':
+        return 'rmul %s %s' % (enc_rat(frac(e[1])), enc_expr(e[2]))
     if op in ('add', 'sub'):
         return '%s %s %s' % (op, enc_expr(e[1]), enc_expr(e[2]))
     if op in ('addcsr', 'subcsr'):
@@ -208,7 +233,8 @@ def expr_desc(e):
         elif sparse.issparse(x):
             out.append({'mat': mat_desc(x)})
         elif isinstance(x, list) and x and isinstance(x[0], tuple):
-            out.append({'tuples': [[[float(a) for a in t[0]], [float(a) for a in t[1]]] for t in x]})
+            out.append({'tuples': [[[float(a) for a in t[0]], [float(a) for a in t[1]],
+                                    str(np.asarray(t[0]).dtype), str(np.asarray(t[1]).dtype)] for t in x]})
         elif isinstance(x, (list, np.ndarray)):
             out.append({'list': [float(a) for a in x]})
         elif isinstance(x, (bool, np.bool_)):
@@ -228,7 +254,8 @@ def expr_from_desc(d):
         elif 'mat' in x:
             out.append(mat_from_desc(x['mat']))
         elif 'tuples' in x:
-            out.append([(np.array(t[0]), np.array(t[1])) for t in x['tuples']])
+            out.append([(np.array(t[0], dtype=(t[2] if len(t) > 2 else float)),
+                         np.array(t[1], dtype=(t[3] if len(t) > 3 else float))) for t in x['tuples']])
         elif 'list' in x:
             out.append(list(x['list']))
         elif 'bool' in x:
@@ -238,6 +265,56 @@ def expr_from_desc(d):
         else:
             out.append(x['num'])
     return tuple(out)
+
+
+def sub_exprs(e):
+    return [x for x in e[1:] if isinstance(x, tuple) and x and isinstance(x[0], str)]
+
+
+def uses_float32(e):
+    """float32 anywhere in the expression (a matrix, a low-rank vector, a cast): the float32 tolerance applies."""
+    for x in e[1:]:
+        if sparse.issparse(x) and x.dtype == np.float32:
+            return True
+        if isinstance(x, list) and x and isinstance(x[0], tuple):
+            if any(np.asarray(t[0]).dtype == np.float32 or np.asarray(t[1]).dtype == np.float32 for t in x):
+                return True
+    if e[0] == 'astype' and e[2] == 'float32':
+        return True
+    return any(uses_float32(x) for x in sub_exprs(e))
+
+
+def int_casts_exact(e):
+    """every astype(int) node was marked exact by the generator (the stored parts of its operand are integers):
+    only then does the cast keep the denoted matrix (OpExpr.IntCastsExact) and the spec line applies."""
+    if e[0] == 'astype' and CAST[e[2]] == 'int' and not (len(e) > 3 and e[3]):
+        return False
+    return all(int_casts_exact(x) for x in sub_exprs(e))
+
+
+def stored_parts(o):
+    """the arrays an operator's astype casts one by one"""
+    k = obj_kind(o)
+    if k == 'slr':
+        return [o.sparse_mat.data] + [a for t in o.low_rank_tuples for a in t]
+    if k == 'lap':
+        return [o.laplacian.data]
+    if k == 'con':
+        return [o.backward.data, o.forward.data]
+    return []
+
+
+def int_cast_status(o):
+    """'exact' (all stored parts are integers), 'unsafe' (a part within 1e-6 of an integer without being one: the
+    truncation is a discrete decision on a rounded number, DESIGN 8) or 'inexact'"""
+    parts = [np.asarray(a, dtype=float).ravel() for a in stored_parts(o)]
+    v = np.concatenate(parts) if parts else np.zeros(0)
+    d = np.abs(v - np.round(v))
+    if np.all(d == 0):
+        return 'exact'
+    if np.any((d > 0) & (d < 1e-6)):
+        return 'unsafe'
+    return 'inexact'
 
 
 def leaf_kinds(e):
@@ -288,10 +365,19 @@ ENTRY = {'slr': 'SparseLR', 'reg': 'Regularizer', 'nrm': 'Normalizer', 'lap': 'L
 # ----------------------------------------------------------------------------------------------
 # random inputs
 # ----------------------------------------------------------------------------------------------
-def rand_matrix(rng, r, c, mode=None, density=None):
+MATRIX_DTYPES = ['float64', 'float64', 'float64', 'float64', 'bool', 'int32', 'int64', 'float32']
+
+
+def rand_matrix(rng, r, c, mode=None, density=None, dtype=None):
     """Random r x c csr matrix; modes: 'nonneg' (0..3), 'signed' (-2..3), 'binary', 'messy' (explicit zeros,
-    duplicates, unsorted indices), 'dyadic' (halves)."""
+    unsorted indices), 'dups' (duplicate entries), 'dyadic' (halves); dtype: float64 / float32 / int32 / int64 / bool
+    (integer-valued modes only; no bool with duplicate entries: scipy adds them up as booleans, a float cast as numbers)."""
     mode = mode or rng.choice(['nonneg', 'nonneg', 'signed', 'binary', 'messy', 'dups', 'dyadic'])
+    dtype = dtype or rng.choice(MATRIX_DTYPES)
+    if mode == 'dyadic' and dtype in ('bool', 'int32', 'int64'):
+        dtype = 'float32' if dtype == 'int32' else 'float64'
+    if mode == 'dups' and dtype == 'bool':
+        dtype = 'int64'
     density = density if density is not None else rng.choice([0.25, 0.5, 0.8])
     null_rows = {i for i in range(r) if rng.random() < 0.2}
     null_cols = {j for j in range(c) if rng.random() < 0.15}
@@ -314,7 +400,7 @@ def rand_matrix(rng, r, c, mode=None, density=None):
     if mode not in ('messy', 'dups'):
         a = sparse.csr_matrix((data, (rows, cols)), shape=(r, c), dtype=float)
         a.sort_indices()
-        return a
+        return _as_dtype(a, dtype)
     # messy: build the CSR arrays by hand
     per_row = [[] for _ in range(r)]
     for i, j, v in zip(rows, cols, data):
@@ -332,15 +418,57 @@ def rand_matrix(rng, r, c, mode=None, density=None):
         indptr.append(len(indices))
     a = sparse.csr_matrix((np.array(vals, dtype=float), np.array(indices, dtype=np.int32), np.array(indptr, dtype=np.int32)),
                           shape=(r, c))
-    return a
+    return _as_dtype(a, dtype)
 
 
-def rand_vec(rng, n, mode='int'):
+def _as_dtype(a, dtype):
+    """Cast keeping the CSR arrays as they are (explicit zeros, order, duplicates)."""
+    if dtype == 'float64':
+        return a
+    b = sparse.csr_matrix((a.data.astype(dtype), a.indices.copy(), a.indptr.copy()), shape=a.shape)
+    return b
+
+
+def rand_vec(rng, n, mode='int', dtype=None):
+    """dtype None = float64; 'any' draws float64 / int64 / float32 (integer-valued modes)"""
+    if dtype == 'any':
+        dtype = rng.choice(['float64', 'float64', 'float64', 'int64', 'float32'])
     if mode == 'int':
-        return np.array([rng.choice([-2, -1, 0, 1, 2, 3]) for _ in range(n)], dtype=float)
-    if mode == 'ones':
-        return np.ones(n)
-    return np.array([rng.choice([-1.5, -0.5, 0, 0.5, 1, 2.25]) for _ in range(n)], dtype=float)
+        v = np.array([rng.choice([-2, -1, 0, 1, 2, 3]) for _ in range(n)], dtype=float)
+    elif mode == 'ones':
+        v = np.ones(n)
+    else:
+        v = np.array([rng.choice([-1.5, -0.5, 0, 0.5, 1, 2.25]) for _ in range(n)], dtype=float)
+        if dtype == 'int64':
+            dtype = 'float64'
+    return v.astype(dtype) if dtype else v
+
+
+PROBE_DTYPES = ['float64', 'float64', 'float64', 'float64', 'int64', 'int64', 'bool', 'float32']
+
+
+def rand_probe(rng, n, k=None, dtype=None):
+    """A probe vector (k None) or n x k array with a dtype drawn from float64 / int64 / bool / float32."""
+    dtype = dtype or rng.choice(PROBE_DTYPES)
+    shape = (n,) if k is None else (n, k)
+    size = n if k is None else n * k
+    if dtype == 'bool':
+        vals = [rng.choice([0, 1, 1]) for _ in range(size)]
+    elif dtype == 'int64':
+        vals = [rng.choice([-2, -1, 0, 1, 2, 3]) for _ in range(size)]
+    else:
+        vals = [rng.choice([-2, -1, 0, 1, 2, 3, 0.5, -1.5]) for _ in range(size)]
+    return np.array(vals, dtype=float).reshape(shape).astype(dtype)
+
+
+def probe_desc(x):
+    x = np.asarray(x)
+    return {'values': x.astype(float).tolist(), 'dtype': str(x.dtype), 'shape': list(x.shape)}
+
+
+def probe_from_desc(d):
+    x = np.array(d['values'], dtype=float).astype(d['dtype'])
+    return x.reshape(tuple(d['shape'])) if 'shape' in d else x
 
 
 def rand_dim(rng, lo=1, hi=5):
@@ -363,7 +491,8 @@ def rand_leaf(rng, kind=None, shape=None, bad=False):
         k = rng.choice([0, 1, 1, 2, 3])
         tuples = []
         for _ in range(k):
-            x, y = rand_vec(rng, r, rng.choice(['int', 'int', 'half'])), rand_vec(rng, c, rng.choice(['int', 'ones']))
+            x = rand_vec(rng, r, rng.choice(['int', 'int', 'half']), dtype='any')
+            y = rand_vec(rng, c, rng.choice(['int', 'ones']), dtype='any')
             tuples.append((x, y))
         if bad and tuples:
             x, y = tuples[-1]
@@ -380,8 +509,13 @@ def rand_leaf(rng, kind=None, shape=None, bad=False):
         if bad:
             a = rand_matrix(rng, n, n + 1)
             return ('lap', a, rng.choice(REGS), False)
-        a = rand_matrix(rng, n, n, mode=rng.choice(['nonneg', 'binary', 'messy']) if nz else None)
-        return ('lap', a, rng.choice([r for r in REGS if r >= 0] if nz else REGS), nz)
+        reg = rng.choice(REGS)
+        a = rand_matrix(rng, n, n)
+        if nz and not np.all(a.dot(np.ones(n)) + reg >= 0):
+            # np.sqrt of a negative regularised degree is NaN: outside the model (signed matrices are kept when fine)
+            a = rand_matrix(rng, n, n, mode=rng.choice(['nonneg', 'binary', 'messy']))
+            reg = rng.choice([r for r in REGS if r >= 0])
+        return ('lap', a, reg, nz)
     if kind == 'con':
         c = rand_dim(rng)
         return ('con', _no_hidden_zero(rand_matrix(rng, n, c)), rng.random() < 0.6)
@@ -404,6 +538,19 @@ SCALARS = [2, -1, 3, 0.5, 0, -2, 1.5]
 TIE_SKIPPED = [0]
 
 
+def astype_stmt(rng, o):
+    """(dtype, exact) for a type change of the operator `o`, or None when the integer cast would be a discrete decision
+    on a rounded number (a stored part within 1e-6 of an integer without being one: tie-skipped)."""
+    dt = rng.choice(['float', 'float64', 'float32', 'int', 'int', 'int64'])
+    if CAST[dt] != 'int':
+        return (dt, True)
+    status = int_cast_status(o)
+    if status == 'unsafe':
+        TIE_SKIPPED[0] += 1
+        return None
+    return (dt, status == 'exact')
+
+
 def try_build(e):
     try:
         o = build(e)
@@ -422,7 +569,7 @@ def grow(rng, e, depth, bad_rate=0.06):
         shape = tuple(o.shape)
         bad = rng.random() < bad_rate
         if kind == 'slr':
-            ops = ['neg', 'add', 'sub', 'addcsr', 'subcsr', 'mul', 'T', 'ldot', 'rdot', 'astype',
+            ops = ['neg', 'add', 'sub', 'addcsr', 'subcsr', 'mul', 'rmul', 'T', 'ldot', 'rdot', 'astype', 'astype',
                    'normalize', 'add', 'sub', 'T', 'ldot', 'rdot']
             if shape[0] + shape[1] <= 10:
                 ops += ['b2d', 'b2u']            # the block forms double the size: at most twice in a row
@@ -431,15 +578,15 @@ def grow(rng, e, depth, bad_rate=0.06):
             if bad:
                 ops += ['addgen']
         elif kind == 'pol':
-            ops = ['neg', 'mul', 'T', 'T', 'gadd', 'gsub']
+            ops = ['neg', 'mul', 'rmul', 'T', 'T', 'gadd', 'gsub']
         elif kind == 'con':
-            ops = ['neg', 'mul', 'T', 'T', 'ldot', 'rdot', 'astype', 'normalize', 'gadd', 'gsub']
+            ops = ['neg', 'mul', 'rmul', 'T', 'T', 'ldot', 'rdot', 'astype', 'astype', 'normalize', 'gadd', 'gsub']
         elif kind in ('nrm', 'nrmT'):
-            ops = ['T', 'T', 'neg', 'mul', 'gadd', 'gsub']
+            ops = ['T', 'T', 'neg', 'mul', 'rmul', 'gadd', 'gsub']
         elif kind == 'lap':
-            ops = ['T', 'T', 'astype', 'neg', 'mul', 'gadd', 'gsub']
+            ops = ['T', 'T', 'astype', 'astype', 'neg', 'mul', 'rmul', 'gadd', 'gsub']
         else:
-            ops = ['neg', 'mul', 'gadd', 'gsub']
+            ops = ['neg', 'mul', 'rmul', 'gadd', 'gsub', 'T', 'T']     # scipy's combinators: transposed as well
         op = rng.choice(ops)
         if op == 'normalize':
             # DESIGN 8, discrete decisions on numbers: the pseudo-inverse tests `weight == 0`; a row sum that is zero
@@ -456,9 +603,14 @@ def grow(rng, e, depth, bad_rate=0.06):
         if op in ('neg', 'T', 'd2u', 'b2d', 'b2u', 'normalize'):
             e = (op, e)
         elif op == 'astype':
-            e = ('astype', e, rng.choice(['float', 'float64']))
+            st = astype_stmt(rng, o)
+            if st is None:
+                continue
+            e = ('astype', e) + st
         elif op == 'mul':
             e = ('mul', e, rng.choice(SCALARS))
+        elif op == 'rmul':
+            e = ('rmul', rng.choice(SCALARS), e)
         elif op in ('add', 'sub'):
             shp = (shape[0] + 1, shape[1]) if bad else shape
             other = grow(rng, rand_leaf(rng, rng.choice(['slr', 'slr', 'reg']), shp), rng.randint(0, 1), 0.0)
@@ -471,7 +623,10 @@ def grow(rng, e, depth, bad_rate=0.06):
             e = ('add' if op == 'gadd' else 'sub', e, other)
         elif op in ('addcsr', 'subcsr'):
             shp = (shape[0], shape[1] + 1) if bad else shape
-            e = (op, e, rand_matrix(rng, *shp))
+            m = rand_matrix(rng, *shp)
+            if op == 'subcsr' and m.dtype == bool:
+                m = m.astype(np.int64)            # scipy (like numpy) refuses to negate a boolean matrix
+            e = (op, e, m)
         elif op == 'ldot':
             k = rand_dim(rng, 1, 4) if rng.random() < 0.5 else shape[0]     # square half of the time
             inner = shape[0] + (1 if bad else 0)
@@ -518,120 +673,215 @@ def nontrivial_expr(e):
     return any(nontrivial_expr(x) for x in e[1:] if isinstance(x, tuple) and x and isinstance(x[0], str))
 
 
-def cases_for_expr(ctx, rng, e, full=True):
-    """All request lines for one expression."""
-    out = []
-    et = enc_expr(e)
+VEC_QUERIES = {'dot': 'col', 'matvec': 'col', 'matmul': 'col', 'dot-wrong-length': 'col+1',
+               'T.dot': 'row', 'H.dot': 'row', 'rmatvec': 'row'}
+MAT_QUERIES = {'dotmat': 'col', 'matmat': 'col', 'matvec2d': 'col', 'T.dotmat': 'row', 'rmatmat': 'row'}
+SUM_QUERIES = {'sum0': 0, 'sum1': 1, 'sum': None}
+TRANSPOSED = {'T.dot', 'H.dot', 'rmatvec', 'T.dotmat', 'rmatmat'}
+
+
+def new_query(rng, q, r, c):
+    """A query with its probe (stored in the replay file: the replay re-runs exactly this query)."""
+    qs = {'query': q}
+    if q in VEC_QUERIES:
+        n = {'col': c, 'col+1': c + 1, 'row': r}[VEC_QUERIES[q]]
+        qs['x'] = probe_desc(rand_probe(rng, n))
+    elif q in MAT_QUERIES:
+        n = c if MAT_QUERIES[q] == 'col' else r
+        qs['x'] = probe_desc(rand_probe(rng, n, rng.randint(1, 3)))
+    return qs
+
+
+def apply_query(o, qs):
+    """Call the real object; returns the implementation's answer in protocol form."""
+    q = qs['query']
+    x = probe_from_desc(qs['x']) if 'x' in qs else None
+    if q in ('dot', 'dot-wrong-length'):
+        return _ok_vec(o.dot(x))
+    if q == 'matvec':
+        return _ok_vec(o.matvec(x))
+    if q == 'matmul':
+        return _ok_vec(o @ x)
+    if q == 'T.dot':
+        return _ok_vec(o.T.dot(x))
+    if q == 'H.dot':
+        return _ok_vec(o.H.dot(x))
+    if q == 'rmatvec':
+        return _ok_vec(o.rmatvec(x))
+    if q == 'dotmat':
+        return _ok_mat(o.dot(x))
+    if q == 'matmat':
+        return _ok_mat(o.matmat(x))
+    if q == 'matvec2d':
+        return _ok_mat(o._matvec(x))
+    if q == 'T.dotmat':
+        return _ok_mat(o.T.dot(x))
+    if q == 'rmatmat':
+        return _ok_mat(o.rmatmat(x))
+    if q in SUM_QUERIES:
+        return 'ok ' + enc_vec(np.atleast_1d(o.sum(axis=SUM_QUERIES[q])))
+    if q == 'shape':
+        return 'ok %d %d' % tuple(o.shape)
+    if q == 'type':
+        return 'ok %s %d %d' % ((obj_kind(o),) + tuple(o.shape))
+    if q == 'd2u_unweighted':
+        from sknetwork.utils.format import directed2undirected
+        directed2undirected(o, weighted=False)
+        return 'ok'
+    raise ToolFailure('unknown query %r' % (q,))
+
+
+def make_case(tree, qs, sig, desc, nontriv, o=None, build_error=None):
+    """One Case: the query `qs` on the object `o` (built from `tree` when None) against the model / specification of `tree`."""
+    q = qs['query']
+    et = enc_expr(tree)
+    x = probe_from_desc(qs['x']) if 'x' in qs else None
+    f32 = uses_float32(tree) or (x is not None and x.dtype == np.float32)
+    tol, tol_tok = (TOL32, TOL32_TOK) if f32 else (TOL, TOL_TOK)
+    spec_ok = int_casts_exact(tree)
+    if build_error is not None:
+        impl = 'err ' + build_error
+    elif o is None:
+        impl = _call(lambda: apply_query(build(tree), qs))
+    else:
+        impl = _call(lambda: apply_query(o, qs))
+    ok = impl.startswith('ok ')
+    tt = ('T ' + et) if q in TRANSPOSED else et
+    canon, spec = None, None
+    if q in VEC_QUERIES:
+        # `.H` of a scipy combinator re-dispatches the arithmetic on the adjoints of its parts (model: Op.adjoint)
+        run = ('c15.hdot %s %s' % (et, enc_vec(x))) if q == 'H.dot' else ('c15.dot %s %s' % (tt, enc_vec(x)))
+        spec = 'c15.spec_dot %s %s %s %s' % (tt, enc_vec(x), impl[3:], tol_tok) if ok and spec_ok else None
+        canon = 'vec'
+    elif q in MAT_QUERIES:
+        run = '%s %s %s' % ('c15.mv2d' if q == 'matvec2d' else 'c15.dotmat', tt, enc_dense(x))
+        spec = 'c15.spec_dotmat %s %s %s %s' % (tt, enc_dense(x), impl[3:], tol_tok) if ok and spec_ok else None
+        canon = 'mat'
+    elif q in SUM_QUERIES:
+        ax = {'sum0': '0', 'sum1': '1', 'sum': '2'}[q]
+        run = 'c15.sum %s %s' % (et, ax)
+        spec = 'c15.spec_sum %s %s %s %s' % (et, ax, impl[3:], tol_tok) if ok and spec_ok else None
+        canon = 'vec'
+    elif q in ('shape', 'construct'):
+        run = 'c15.shape ' + et
+        spec = 'c15.spec_shape %s %s' % (et, impl[3:]) if ok else None
+    elif q == 'type':
+        # which class Python returns is not part of the property: a difference is a broken tie, not a failing input
+        run = 'c15.type ' + et
+    elif q == 'd2u_unweighted':
+        run = 'c15.d2u_unweighted ' + et
+    else:
+        raise ToolFailure('unknown query %r' % (q,))
+    key = (q, et, json.dumps(qs.get('x'), sort_keys=True), json.dumps(sig, sort_keys=True))
+    nt = nontriv and q != 'dot-wrong-length'
+    return Case(key, dict(sig, query=q), run, impl, spec, nt, dict(desc, qs=qs), canon=canon,
+                tol={'tol': tol, 'refused': False})
+
+
+def queries_for(rng, kind, r, c, full):
+    """The queries sent for one operator of class `kind` and shape (r, c)."""
+    qs = [new_query(rng, 'shape', r, c), new_query(rng, 'type', r, c), new_query(rng, 'dot', r, c),
+          new_query(rng, 'T.dot', r, c)]
+    pool = ['dotmat', 'matmat', 'T.dotmat', 'rmatmat', 'H.dot', 'rmatvec', 'matvec', 'matmul']
+    if kind != 'gen':
+        pool += ['matvec2d', 'matvec2d']
+    qs += [new_query(rng, q, r, c) for q in (pool if full else rng.sample(pool, 3))]
+    if rng.random() < 0.15:
+        qs.append(new_query(rng, 'dot-wrong-length', r, c))
+    if rng.random() < 0.1:
+        qs.append(new_query(rng, 'd2u_unweighted', r, c))
+    if kind == 'slr':
+        qs += [new_query(rng, q, r, c) for q in ('sum0', 'sum1', 'sum') if full or rng.random() < 0.6]
+    return qs
+
+
+def inputs_unchanged(ctx, e):
+    """Build the expression once on the ORIGINAL matrices of its leaves and products (no copies) and apply it: the
+    arrays of the arguments must be what they were (a caller-visible mutation of an input is reported directly)."""
+    mats = []
+
+    def collect(x):
+        for y in x[1:]:
+            if sparse.issparse(y):
+                mats.append(y)
+            elif isinstance(y, tuple) and y and isinstance(y[0], str):
+                collect(y)
+    collect(e)
+    before = [(m.data.copy(), m.indices.copy(), m.indptr.copy(), m.dtype) for m in mats]
+    global _COPY_INPUTS
+    _COPY_INPUTS = False
+    try:
+        try:
+            o = build(e)
+            if hasattr(o, 'shape') and len(o.shape) == 2:
+                o.dot(np.ones(o.shape[1]))
+                o.T.dot(np.ones(o.shape[0]))
+        except ERRORS:
+            pass
+    finally:
+        _COPY_INPUTS = True
+    for m, (d, ix, ip, dt) in zip(mats, before):
+        same = (m.dtype == dt and len(m.data) == len(d) and np.array_equal(m.data, d) and np.array_equal(m.indices, ix)
+                and np.array_equal(m.indptr, ip))
+        if not same:
+            ctx.spec_fail(dict(expr_sig(e, 'inputs-unchanged'), aspect='input-unchanged'),
+                          {'expr': expr_desc(e), 'qs': {'query': 'inputs-unchanged'}},
+                          {'what': 'a matrix passed to a constructor / operation was modified in place',
+                           'before': {'data': d.tolist(), 'indices': ix.tolist(), 'indptr': ip.tolist(), 'dtype': str(dt)},
+                           'after': mat_desc(m)})
+            m.data, m.indices, m.indptr = d, ix, ip        # restore for the other cases
+    ctx.count('aspect:inputs-unchanged')
+
+
+def cases_for_expr(ctx, rng, e, full=True, qs_list=None):
+    """All request lines for one expression (or exactly the recorded queries `qs_list` of a replay)."""
     desc = {'expr': expr_desc(e)}
     nontriv = nontrivial_expr(e)
     o, err = try_build(e)
     if err is not None:
         # the construction itself raises: the model must refuse the same way
-        out.append(Case(('shape', et), expr_sig(e, 'construct'), 'c15.shape ' + et, 'err ' + err, None, nontriv,
-                        dict(desc, query='construct')))
-        return out
+        return [make_case(e, {'query': 'construct'}, expr_sig(e, 'construct'), desc, nontriv, build_error=err)]
+    if not hasattr(o, 'shape') or len(getattr(o, 'shape', ())) != 2:
+        raise ToolFailure('expression %s evaluates to %r' % (enc_expr(e)[:80], type(o)))
     kind = obj_kind(o)
     r, c = o.shape
-    out.append(Case(('shape', et), expr_sig(e, 'shape'), 'c15.shape ' + et, 'ok %d %d' % (r, c),
-                    'c15.spec_shape %s %d %d' % (et, r, c), nontriv, dict(desc, query='shape')))
-    # class of the returned object and its shape against the static type of the expression (OpExpr.type?)
-    # (which class Python returns is not part of the property: a difference is a broken tie, not a failing input)
-    out.append(Case(('type', et), expr_sig(e, 'type'), 'c15.type ' + et, 'ok %s %d %d' % (kind, r, c),
-                    None, nontriv, dict(desc, query='type')))
-
-    def add_dot(expr, tag, x, wrong=False):
-        ett = enc_expr(expr)
-        impl = _call(lambda: _ok_vec(build(expr).dot(x)))
-        run = 'c15.dot %s %s' % (ett, enc_vec(x))
-        spec = None
-        if impl.startswith('ok '):
-            spec = 'c15.spec_dot %s %s %s %s' % (ett, enc_vec(x), impl[3:], TOL_TOK)
-        out.append(Case((tag, ett, enc_vec(x)), expr_sig(expr, tag), run, impl, spec, nontriv and not wrong,
-                        {'expr': expr_desc(expr), 'query': tag, 'x': [float(v) for v in x]}, canon='vec'))
-
-    def add_dotmat(expr, tag, xm, direct=False):
-        ett = enc_expr(expr)
-        if direct:
-            impl = _call(lambda: _ok_mat(build(expr)._matvec(xm)))
-        else:
-            impl = _call(lambda: _ok_mat(build(expr).dot(xm)))
-        run = '%s %s %s' % ('c15.mv2d' if direct else 'c15.dotmat', ett, enc_dense(xm))
-        spec = None
-        if impl.startswith('ok '):
-            spec = 'c15.spec_dotmat %s %s %s %s' % (ett, enc_dense(xm), impl[3:], TOL_TOK)
-        out.append(Case((tag, ett, enc_dense(xm)), expr_sig(expr, tag), run, impl, spec, nontriv,
-                        {'expr': expr_desc(expr), 'query': tag, 'x': np.asarray(xm).tolist()}, canon='mat'))
-
-    x = rand_vec(rng, c, rng.choice(['int', 'int', 'half']))
-    add_dot(e, 'dot', x)
-    if full or rng.random() < 0.5:
-        k = rng.randint(1, 3)
-        xm = np.array([[rng.choice([-1, 0, 1, 2]) for _ in range(k)] for _ in range(c)], dtype=float).reshape(c, k)
-        add_dotmat(e, 'dotmat', xm)
-        if kind in ('slr', 'nrm', 'nrmT', 'lap', 'pol', 'con'):
-            if kind == 'nrmT':
-                # the 2-d branch of Normalizer._rmatvec
-                ett = enc_expr(e)
-                impl = _call(lambda: _ok_mat(build(e).A._rmatvec(xm)))
-                spec = 'c15.spec_dotmat %s %s %s %s' % (ett, enc_dense(xm), impl[3:], TOL_TOK) if impl.startswith('ok ') else None
-                out.append(Case(('mv2d', ett, enc_dense(xm)), expr_sig(e, 'matvec2d'), 'c15.mv2d %s %s' % (ett, enc_dense(xm)),
-                                impl, spec, nontriv, {'expr': expr_desc(e), 'query': 'matvec2d', 'x': xm.tolist()}, canon='mat'))
-            else:
-                add_dotmat(e, 'matvec2d', xm, direct=True)
-    if kind != 'gen':
-        y = rand_vec(rng, r, 'int')
-        add_dot(('T', e), 'T.dot', y)
-        if full and rng.random() < 0.5:
-            k = rng.randint(1, 2)
-            ym = np.array([[rng.choice([-1, 0, 1, 2]) for _ in range(k)] for _ in range(r)], dtype=float).reshape(r, k)
-            add_dotmat(('T', e), 'T.dotmat', ym)
-    if rng.random() < 0.15:
-        add_dot(e, 'dot', rand_vec(rng, c + 1, 'int'), wrong=True)         # wrong length: ValueError on both sides
-    if rng.random() < 0.1:
-        from sknetwork.utils.format import directed2undirected
-        impl = _call(lambda: 'ok' if directed2undirected(build(e), weighted=False) is not None else 'ok')
-        out.append(Case(('d2u_unweighted', et), expr_sig(e, 'd2u_unweighted'), 'c15.d2u_unweighted ' + et, impl, None,
-                        nontriv, dict(desc, query='d2u_unweighted')))
-    if kind == 'slr':
-        for axis in (0, 1, None):
-            if not full and rng.random() < 0.4:
-                continue
-            def f(axis=axis):
-                s = build(e).sum(axis=axis)
-                return 'ok ' + enc_vec(np.atleast_1d(s))
-            impl = _call(f)
-            ax = {0: '0', 1: '1', None: '2'}[axis]
-            spec = 'c15.spec_sum %s %s %s %s' % (et, ax, impl[3:], TOL_TOK) if impl.startswith('ok ') else None
-            out.append(Case(('sum', et, ax), expr_sig(e, 'sum'), 'c15.sum %s %s' % (et, ax), impl, spec, nontriv,
-                            dict(desc, query='sum', axis=axis), canon='vec'))
-    return out
+    if qs_list is None:
+        qs_list = queries_for(rng, kind, r, c, full)
+        if ctx is not None and rng.random() < 0.3:
+            inputs_unchanged(ctx, e)
+    return [make_case(e, qs, expr_sig(e, qs['query']), desc, nontriv) for qs in qs_list]
 
 
 # ----------------------------------------------------------------------------------------------
 # shared operands (object identity): `c - c`, `c + (-c)`, `c * 2 + c`
 # ----------------------------------------------------------------------------------------------
-def cases_shared(ctx, rng, leaf):
+def cases_shared(ctx, rng, leaf, only=None, x=None):
     out = []
     kind = leaf[0]
     patterns = [('sub', lambda c: c - c, ('sub', leaf, leaf)),
                 ('add-neg', lambda c: c + (-c), ('add', leaf, ('neg', leaf))),
                 ('mul-add', lambda c: (c * 2) + c, ('add', ('mul', leaf, 2), leaf))]
     for name, f, pure in patterns:
+        if only is not None and name != only:
+            continue
         o, err = try_build(leaf)
         if err is not None:
             continue
         n = o.shape[1]
-        x = rand_vec(rng, n, 'int')
-        impl = _call(lambda: _ok_vec(f(build(leaf)).dot(x)))
+        xv = x if x is not None else rand_vec(rng, n, 'int')
+        impl = _call(lambda: _ok_vec(f(build(leaf)).dot(xv)))
         et = enc_expr(pure)
-        spec = 'c15.spec_dot %s %s %s %s' % (et, enc_vec(x), impl[3:], TOL_TOK) if impl.startswith('ok ') else None
+        f32 = uses_float32(leaf)
+        tol, tol_tok = (TOL32, TOL32_TOK) if f32 else (TOL, TOL_TOK)
+        spec = 'c15.spec_dot %s %s %s %s' % (et, enc_vec(xv), impl[3:], tol_tok) if impl.startswith('ok ') else None
         sig = {'entry': ENTRY[kind], 'shared_operand': True, 'pattern': name}
-        run = 'c15.dot %s %s' % (et, enc_vec(x))
+        run = 'c15.dot %s %s' % (et, enc_vec(xv))
         if kind == 'con':
             # the model of the code as it is: CoNeighbor arithmetic works in place on the one shared object
-            run = 'c15.shared %s %s %s %s' % (name, enc_mat(leaf[1]), enc_bool(leaf[2]), enc_vec(x))
-        out.append(Case(('shared', name, et, enc_vec(x)), sig, run, impl, spec,
-                        leaf[1].nnz > 0, {'shared': name, 'leaf': expr_desc(leaf), 'x': [float(v) for v in x]}, canon='vec'))
+            run = 'c15.shared %s %s %s %s' % (name, enc_mat(leaf[1]), enc_bool(leaf[2]), enc_vec(xv))
+        out.append(Case(('shared', name, et, enc_vec(xv)), sig, run, impl, spec,
+                        leaf[1].nnz > 0, {'shared': name, 'leaf': expr_desc(leaf), 'x': probe_desc(xv)}, canon='vec',
+                        tol={'tol': tol, 'refused': False}))
     return out
 
 
@@ -640,13 +890,15 @@ def cases_shared(ctx, rng, leaf):
 # ----------------------------------------------------------------------------------------------
 # A program is a list of statements; statement k binds object k:
 #   ('leaf', expr) | ('neg', i) | ('mul', i, c) | ('T', i) | ('add', i, j) | ('sub', i, j) | ('addcsr', i, A) | ('subcsr', i, A)
-#   | ('ldot', A, i) | ('rdot', i, A) | ('astype', i, dtype) | ('d2u', i) | ('b2d', i) | ('b2u', i) | ('normalize', i)
+#   | ('ldot', A, i) | ('rdot', i, A) | ('astype', i, dtype, exact) | ('rmul', c, i) | ('d2u', i) | ('b2d', i) | ('b2u', i)
+#   | ('normalize', i)
 # In the model operands are values (`Prog.run`, Model/LinOp.lean): object k denotes the tree obtained by unfolding the
 # statements (`C15.prog_run_denote`) and a later statement never changes an earlier object (`C15.prog_run_prefix`).
 # After every statement the operands and the result are re-evaluated against their own trees.
 
 STMT_OPERANDS = {'neg': (1,), 'mul': (1,), 'T': (1,), 'add': (1, 2), 'sub': (1, 2), 'addcsr': (1,), 'subcsr': (1,),
-                 'ldot': (2,), 'rdot': (1,), 'astype': (1,), 'd2u': (1,), 'b2d': (1,), 'b2u': (1,), 'normalize': (1,)}
+                 'ldot': (2,), 'rdot': (1,), 'astype': (1,), 'rmul': (2,), 'd2u': (1,), 'b2d': (1,), 'b2u': (1,),
+                 'normalize': (1,)}
 # CoNeighbor works in place and returns the operand (finding F16i): these statements change their CoNeighbor operand
 CON_IN_PLACE = {('neg', 'only'), ('mul', 'only'), ('ldot', 'only'), ('rdot', 'only'), ('normalize', 'only'), ('sub', 'right'),
                 ('sub', 'both')}
@@ -662,7 +914,9 @@ def stmt_tree(st, trees):
     if op == 'mul':
         return ('mul', trees[st[1]], st[2])
     if op == 'astype':
-        return ('astype', trees[st[1]], st[2])
+        return ('astype', trees[st[1]], st[2], st[3] if len(st) > 3 else True)
+    if op == 'rmul':
+        return ('rmul', st[1], trees[st[2]])
     if op in ('add', 'sub'):
         return (op, trees[st[1]], trees[st[2]])
     if op in ('addcsr', 'subcsr'):
@@ -685,6 +939,8 @@ def stmt_apply(st, objs):
         return -objs[st[1]]
     if op == 'mul':
         return objs[st[1]] * st[2]
+    if op == 'rmul':
+        return st[1] * objs[st[2]]
     if op == 'T':
         return objs[st[1]].T
     if op == 'add':
@@ -723,6 +979,8 @@ def stmt_desc(st):
             out.append({'mat': mat_desc(x)})
         elif isinstance(x, str):
             out.append({'str': x})
+        elif isinstance(x, (bool, np.bool_)):
+            out.append({'bool': bool(x)})
         else:
             out.append({'num': float(x)})
     return out
@@ -739,6 +997,8 @@ def stmt_from_desc(d):
             out.append(x['str'])
         elif 'index' in x:
             out.append(int(x['index']))
+        elif 'bool' in x:
+            out.append(x['bool'])
         else:
             out.append(x['num'])
     return tuple(out)
@@ -752,45 +1012,42 @@ def class_name(o):
             'gen': 'LinearOperator'}[k]
 
 
-def cases_for_object(ctx, rng, o, tree, sig, desc, nontriv, queries=2):
+def cases_for_object(ctx, rng, o, tree, sig, desc, nontriv, queries=2, qs_list=None):
     """Re-evaluate an existing object against the tree it denotes (nothing here may modify the object)."""
-    out = []
-    et = enc_expr(tree)
     kind = obj_kind(o)
     r, c = o.shape
-    todo = ['dot'] + rng.sample(['T.dot', 'dotmat', 'sum0', 'sum1', 'sum', 'shape'], queries - 1 if queries > 1 else 0)
-    for q in todo:
-        if q == 'dot':
-            x = rand_vec(rng, c, rng.choice(['int', 'int', 'half']))
-            impl = _call(lambda: _ok_vec(o.dot(x)))
-            spec = 'c15.spec_dot %s %s %s %s' % (et, enc_vec(x), impl[3:], TOL_TOK) if impl.startswith('ok ') else None
-            out.append(Case(('reuse', q, et, enc_vec(x), sig['reuse'], sig['role']), dict(sig, query=q), 'c15.dot %s %s' % (et, enc_vec(x)),
-                            impl, spec, nontriv, dict(desc, query=q), canon='vec'))
-        elif q == 'T.dot' and kind != 'gen':
-            y = rand_vec(rng, r, 'int')
-            ett = enc_expr(('T', tree))
-            impl = _call(lambda: _ok_vec(o.T.dot(y)))
-            spec = 'c15.spec_dot %s %s %s %s' % (ett, enc_vec(y), impl[3:], TOL_TOK) if impl.startswith('ok ') else None
-            out.append(Case(('reuse', q, ett, enc_vec(y), sig['reuse'], sig['role']), dict(sig, query=q), 'c15.dot %s %s' % (ett, enc_vec(y)),
-                            impl, spec, nontriv, dict(desc, query=q), canon='vec'))
-        elif q == 'dotmat':
-            k = rng.randint(1, 2)
-            xm = np.array([[rng.choice([-1, 0, 1, 2]) for _ in range(k)] for _ in range(c)], dtype=float).reshape(c, k)
-            impl = _call(lambda: _ok_mat(o.dot(xm)))
-            spec = 'c15.spec_dotmat %s %s %s %s' % (et, enc_dense(xm), impl[3:], TOL_TOK) if impl.startswith('ok ') else None
-            out.append(Case(('reuse', q, et, enc_dense(xm), sig['reuse'], sig['role']), dict(sig, query=q),
-                            'c15.dotmat %s %s' % (et, enc_dense(xm)), impl, spec, nontriv, dict(desc, query=q), canon='mat'))
-        elif q in ('sum0', 'sum1', 'sum') and kind == 'slr':
-            axis = {'sum0': 0, 'sum1': 1, 'sum': None}[q]
-            ax = {'sum0': '0', 'sum1': '1', 'sum': '2'}[q]
-            impl = _call(lambda: 'ok ' + enc_vec(np.atleast_1d(o.sum(axis=axis))))
-            spec = 'c15.spec_sum %s %s %s %s' % (et, ax, impl[3:], TOL_TOK) if impl.startswith('ok ') else None
-            out.append(Case(('reuse', q, et, sig['reuse'], sig['role']), dict(sig, query=q), 'c15.sum %s %s' % (et, ax), impl, spec,
-                            nontriv, dict(desc, query=q), canon='vec'))
-        elif q == 'shape':
-            out.append(Case(('reuse', q, et, sig['reuse'], sig['role']), dict(sig, query=q), 'c15.shape ' + et, 'ok %d %d' % (r, c),
-                            'c15.spec_shape %s %d %d' % (et, r, c), nontriv, dict(desc, query=q)))
-    return out
+    if qs_list is None:
+        pool = ['T.dot', 'dotmat', 'shape', 'H.dot', 'rmatvec', 'matvec'] + (['sum0', 'sum1', 'sum'] if kind == 'slr' else [])
+        qs_list = [new_query(rng, q, r, c) for q in ['dot'] + rng.sample(pool, max(0, queries - 1))]
+    return [make_case(tree, qs, sig, desc, nontriv, o=o) for qs in qs_list]
+
+
+def in_place_effect(st, role, tree):
+    """The tree a CoNeighbor operand denotes after the statement has worked on it in place (finding F16i)."""
+    op = st[0]
+    if op == 'neg' or op == 'sub':
+        return ('neg', tree)
+    if op == 'mul':
+        return ('mul', tree, st[2])
+    if op == 'ldot':
+        return ('ldot', st[1], tree)
+    if op == 'rdot':
+        return ('rdot', tree, st[2])
+    if op == 'normalize':
+        return ('normalize', tree)
+    return tree
+
+
+def effect_of(o, st, role, tree):
+    """'in-place-result' when the operand now equals the result of the operation applied to what it denoted (the known
+    in-place family), 'other' for any other change: only the former is matched by the recorded finding."""
+    try:
+        fresh = build(in_place_effect(st, role, tree))
+        x = np.arange(1, o.shape[1] + 1, dtype=float)
+        return 'in-place-result' if np.allclose(np.asarray(o.dot(x), dtype=float), np.asarray(fresh.dot(x), dtype=float),
+                                                rtol=1e-9, atol=1e-9) else 'other'
+    except ERRORS:
+        return 'other'
 
 
 def _con_ids(o, seen=None):
@@ -805,8 +1062,9 @@ def _con_ids(o, seen=None):
     return seen
 
 
-def cases_program(ctx, rng, program):
-    """Execute a program on real objects; after every statement re-evaluate its operands and its result."""
+def cases_program(ctx, rng, program, only=None):
+    """Execute a program on real objects; after every statement re-evaluate its operands and its result.
+    `only` = {'after', 'checked', 'qs'}: a replay emits exactly the recorded query."""
     out = []
     objs, trees, tainted = [], [], set()
     pdesc = [stmt_desc(st) for st in program]
@@ -818,8 +1076,9 @@ def cases_program(ctx, rng, program):
             o = stmt_apply(st, objs)
         except ERRORS as ex:
             # the statement is refused: the model must refuse the unfolded expression the same way
-            out.append(Case(('reuse-construct', enc_expr(tree)), {'entry': 'program', 'aspect': 'construct', 'reuse': st[0]},
-                            'c15.shape ' + enc_expr(tree), 'err ' + type(ex).__name__, None, nontriv, dict(desc, query='construct')))
+            if only is None or only.get('after') == k:
+                out.append(make_case(tree, {'query': 'construct'}, {'entry': 'program', 'aspect': 'construct', 'reuse': st[0]},
+                                     desc, nontriv, build_error=type(ex).__name__))
             break
         if not hasattr(o, 'shape') or len(o.shape) != 2:
             break
@@ -847,14 +1106,25 @@ def cases_program(ctx, rng, program):
             if not in_place_con and (_con_ids(objs[i]) & mutated):
                 continue                           # changed through the in-place CoNeighbor it references
             sig = {'entry': class_name(objs[i]), 'aspect': 'operand-unchanged', 'reuse': st[0], 'role': role}
-            out += cases_for_object(ctx, rng, objs[i], trees[i], sig, dict(desc, checked=i), nontrivial_expr(trees[i]), queries=3)
+            if in_place_con:
+                sig['effect'] = effect_of(objs[i], st, role, trees[i])
+            if only is None:
+                out += cases_for_object(ctx, rng, objs[i], trees[i], sig, dict(desc, checked=i, role=role),
+                                        nontrivial_expr(trees[i]), queries=3)
+            elif only.get('after') == k and only.get('checked') == i and only.get('role', role) == role:
+                out += cases_for_object(ctx, rng, objs[i], trees[i], sig, dict(desc, checked=i, role=role),
+                                        nontrivial_expr(trees[i]), qs_list=[only['qs']])
         if mutated:
             for j, oj in enumerate(objs):
                 if _con_ids(oj) & mutated:
                     tainted.add(j)
         if k not in tainted and not any(st[ppos] in tainted for ppos in pos):
             sig = {'entry': class_name(o), 'aspect': 'dag-result', 'reuse': st[0], 'role': 'result'}
-            out += cases_for_object(ctx, rng, o, tree, sig, dict(desc, checked=k), nontriv, queries=2)
+            if only is None:
+                out += cases_for_object(ctx, rng, o, tree, sig, dict(desc, checked=k, role='result'), nontriv, queries=2)
+            elif only.get('after') == k and only.get('checked') == k and only.get('role') == 'result':
+                out += cases_for_object(ctx, rng, o, tree, sig, dict(desc, checked=k, role='result'), nontriv,
+                                        qs_list=[only['qs']])
         elif any(st[ppos] in tainted for ppos in pos):
             tainted.add(k)
     return out
@@ -883,21 +1153,22 @@ def rand_program(rng, length):
             return program
         kind, shape = obj_kind(o), tuple(o.shape)
         if kind == 'slr':
-            ops = ['neg', 'add', 'sub', 'add', 'sub', 'addcsr', 'subcsr', 'mul', 'T', 'ldot', 'rdot', 'astype', 'normalize']
+            ops = ['neg', 'add', 'sub', 'add', 'sub', 'addcsr', 'subcsr', 'mul', 'rmul', 'T', 'ldot', 'rdot', 'astype', 'astype',
+                   'normalize']
             if shape[0] + shape[1] <= 8:
                 ops += ['b2d', 'b2u']
             if shape[0] == shape[1]:
                 ops += ['d2u']
         elif kind == 'pol':
-            ops = ['neg', 'mul', 'T', 'add', 'sub']
+            ops = ['neg', 'mul', 'rmul', 'T', 'add', 'sub']
         elif kind == 'con':
-            ops = ['neg', 'mul', 'T', 'ldot', 'rdot', 'astype', 'normalize', 'add', 'sub']
+            ops = ['neg', 'mul', 'rmul', 'T', 'ldot', 'rdot', 'astype', 'astype', 'normalize', 'add', 'sub']
         elif kind in ('nrm', 'nrmT'):
-            ops = ['T', 'neg', 'mul', 'add', 'sub']
+            ops = ['T', 'neg', 'mul', 'rmul', 'add', 'sub']
         elif kind == 'lap':
-            ops = ['T', 'astype', 'neg', 'mul', 'add', 'sub']
+            ops = ['T', 'astype', 'astype', 'neg', 'mul', 'rmul', 'add', 'sub']
         else:
-            ops = ['neg', 'mul', 'add', 'sub']
+            ops = ['neg', 'mul', 'rmul', 'T', 'add', 'sub']
         op = rng.choice(ops)
         if op in ('neg', 'T', 'd2u', 'b2d', 'b2u'):
             program.append((op, i))
@@ -914,9 +1185,17 @@ def rand_program(rng, length):
         elif op == 'mul':
             program.append(('mul', i, rng.choice(SCALARS)))
         elif op == 'astype':
-            program.append(('astype', i, rng.choice(['float', 'float64'])))
+            st = astype_stmt(rng, o)
+            if st is None:
+                continue
+            program.append(('astype', i) + st)
+        elif op == 'rmul':
+            program.append(('rmul', rng.choice(SCALARS), i))
         elif op in ('addcsr', 'subcsr'):
-            program.append((op, i, rand_matrix(rng, *shape)))
+            m = rand_matrix(rng, *shape)
+            if op == 'subcsr' and m.dtype == bool:
+                m = m.astype(np.int64)
+            program.append((op, i, m))
         elif op == 'ldot':
             k = rand_dim(rng, 1, 4) if rng.random() < 0.5 else shape[0]
             program.append(('ldot', rand_matrix(rng, k, shape[0], density=0.6), i))
@@ -940,12 +1219,18 @@ def rand_program(rng, length):
 # ----------------------------------------------------------------------------------------------
 # utilities
 # ----------------------------------------------------------------------------------------------
-def _spec_same_mat(cmd, impl):
-    return 'c15.spec_same %s mat %s %s' % (TOL_TOK, impl[3:], cmd) if impl.startswith('ok ') else None
+def _spec_def(spec_cmd, args, impl):
+    """spec line of a documented definition written entry by entry (Spec/Convert.lean): `spec_cmd tol <inputs> <output>`."""
+    return '%s %s %s %s' % (spec_cmd, TOL_TOK, args, impl[3:]) if impl.startswith('ok ') else None
 
 
-def _spec_same_vec(cmd, impl):
-    return 'c15.spec_same %s vec %s %s' % (TOL_TOK, impl[3:], cmd) if impl.startswith('ok ') else None
+def case_pinv(w, nontriv=True):
+    from sknetwork.linalg import diagonal_pseudo_inverse
+    w = np.asarray(w, dtype=float)
+    impl = _call(lambda: 'ok ' + enc_vec(diagonal_pseudo_inverse(w).diagonal()))
+    spec = 'c15.spec_pinv %s %s %s' % (enc_vec(w), impl[3:], TOL_TOK) if impl.startswith('ok ') else None
+    return Case(('pinv', enc_vec(w)), {'entry': 'diagonal_pseudo_inverse'}, 'c15.pinv ' + enc_vec(w), impl, spec, nontriv,
+                {'f': 'diagonal_pseudo_inverse', 'weights': w.tolist()}, canon='vec')
 
 
 def cases_matrix_utils(ctx, rng, a, full=True):
@@ -970,7 +1255,7 @@ def cases_matrix_utils(ctx, rng, a, full=True):
         impl = _call(lambda: _ok_mat(sparse.csr_matrix(normalize(arg, p=1)).toarray() if fmt == 'csr' else normalize(arg, p=1)))
         cmd = 'c15.normalize %s 1 -' % am
         out.append(Case(('normalize', am, 1, fmt), {'entry': 'normalize', 'p': 1, 'format': fmt}, cmd, impl,
-                        _spec_same_mat('c15.spec_normalize1 ' + am, impl) if False else _spec_norm1(am, impl), nt,
+                        _spec_norm1(am, impl), nt,
                         {'f': 'normalize', 'matrix': md, 'p': 1, 'format': fmt}, canon='mat'))
     sq2 = np.sqrt((a.multiply(a)).dot(np.ones(c))) if c else np.zeros(r)
     impl = _call(lambda: _ok_mat(normalize(a.copy(), p=2).toarray()))
@@ -979,6 +1264,21 @@ def cases_matrix_utils(ctx, rng, a, full=True):
     impl = _call(lambda: _ok_mat(normalize(a.copy(), p=3).toarray()))
     out.append(Case(('normalize', am, 3), {'entry': 'normalize', 'p': 3}, 'c15.normalize %s 3 -' % am, impl, None, False,
                     {'f': 'normalize', 'matrix': md, 'p': 3}))
+    # integer / boolean / float32 matrices through normalize and get_norms (same definitions)
+    if a.nnz and np.all(a.data == np.round(a.data)):
+        for dt in ('int64', 'bool', 'float32'):
+            b = _as_dtype(a, dt)
+            bm = enc_mat(b)
+            impl = _call(lambda: _ok_mat(sparse.csr_matrix(normalize(b.copy(), p=1)).toarray()))
+            out.append(Case(('normalize', bm, 1, dt), {'entry': 'normalize', 'p': 1, 'dtype': dt}, 'c15.normalize %s 1 -' % bm, impl,
+                            'c15.spec_normalize %s 1 %s %s' % (bm, impl[3:], TOL32_TOK if dt == 'float32' else TOL_TOK)
+                            if impl.startswith('ok ') else None, nt,
+                            {'f': 'normalize', 'matrix': mat_desc(b), 'p': 1}, canon='mat',
+                            tol={'tol': TOL32 if dt == 'float32' else TOL}))
+            impl = _call(lambda: 'ok ' + enc_vec(np.asarray(get_norms(b.copy(), p=2), dtype=float) ** 2))
+            out.append(Case(('norms', bm, 2, dt), {'entry': 'get_norms', 'p': 2, 'dtype': dt}, 'c15.norms %s 2' % bm, impl, None, nt,
+                            {'f': 'get_norms', 'matrix': mat_desc(b), 'p': 2}, canon='vec',
+                            tol={'tol': TOL32 if dt == 'float32' else TOL}))
     # get_norms
     impl = _call(lambda: 'ok ' + enc_vec(get_norms(a.copy(), p=1)))
     out.append(Case(('norms', am, 1), {'entry': 'get_norms', 'p': 1}, 'c15.norms %s 1' % am, impl, None, nt,
@@ -987,11 +1287,7 @@ def cases_matrix_utils(ctx, rng, a, full=True):
     out.append(Case(('norms', am, 2), {'entry': 'get_norms', 'p': 2}, 'c15.norms %s 2' % am, impl, None, nt,
                     {'f': 'get_norms', 'matrix': md, 'p': 2}, canon='vec'))
     # diagonal_pseudo_inverse on the row sums
-    w = a.dot(np.ones(c))
-    impl = _call(lambda: 'ok ' + enc_vec(diagonal_pseudo_inverse(w).diagonal()))
-    spec = 'c15.spec_pinv %s %s %s' % (enc_vec(w), impl[3:], TOL_TOK) if impl.startswith('ok ') else None
-    out.append(Case(('pinv', enc_vec(w)), {'entry': 'diagonal_pseudo_inverse'}, 'c15.pinv ' + enc_vec(w), impl, spec, nt,
-                    {'f': 'diagonal_pseudo_inverse', 'weights': w.tolist()}, canon='vec'))
+    out.append(case_pinv(a.dot(np.ones(c)), nt))
     # get_laplacian
     impl = _call(lambda: _ok_mat(sparse.csr_matrix(get_laplacian(a.copy())).toarray()))
     cmd = 'c15.laplacian ' + am
@@ -1019,7 +1315,8 @@ def cases_matrix_utils(ctx, rng, a, full=True):
                 impl, rdt = 'err ' + type(ex).__name__, None
             cmd = 'c15.d2u %s %s' % (bm, enc_bool(weighted))
             sig = {'entry': 'directed2undirected', 'weighted': weighted, 'dtype': dt}
-            out.append(Case(('d2u', bm, weighted, dt), sig, cmd, impl, _spec_same_mat(cmd, impl), b.nnz > 0 and r == c,
+            spec = 'c15.spec_d2u %s %s %s %s' % (TOL_TOK, bm, enc_bool(weighted), impl[3:]) if impl.startswith('ok ') else None
+            out.append(Case(('d2u', bm, weighted, dt), sig, cmd, impl, spec, b.nnz > 0 and r == c,
                             {'f': 'directed2undirected', 'matrix': mat_desc(b), 'weighted': weighted}, canon='mat'))
             if rdt is not None and weighted:
                 kind = {'float64': 'float64', 'int64': 'int', 'int32': 'int', 'bool': 'bool', 'float32': 'float32'}.get(rdt, rdt)
@@ -1028,18 +1325,18 @@ def cases_matrix_utils(ctx, rng, a, full=True):
     # bipartite conversions
     impl = _call(lambda: _ok_mat(bipartite2directed(a.copy()).toarray()))
     cmd = 'c15.b2d ' + am
-    out.append(Case(('b2d', am), {'entry': 'bipartite2directed'}, cmd, impl, _spec_same_mat(cmd, impl), nt,
+    out.append(Case(('b2d', am), {'entry': 'bipartite2directed'}, cmd, impl, _spec_def('c15.spec_b2d', am, impl), nt,
                     {'f': 'bipartite2directed', 'matrix': md}, canon='mat'))
     impl = _call(lambda: _ok_mat(bipartite2undirected(a.copy()).toarray()))
     cmd = 'c15.b2u ' + am
-    out.append(Case(('b2u', am), {'entry': 'bipartite2undirected'}, cmd, impl, _spec_same_mat(cmd, impl), nt,
+    out.append(Case(('b2u', am), {'entry': 'bipartite2undirected'}, cmd, impl, _spec_def('c15.spec_b2u', am, impl), nt,
                     {'f': 'bipartite2undirected', 'matrix': md}, canon='mat'))
     # tf-idf (log external: table log(n_documents / f), f = 1..n_documents)
     import math
     table = [math.log(r / f) for f in range(1, r + 1)]
     impl = _call(lambda: _ok_mat(sparse.csr_matrix(get_tfidf(a.copy())).toarray()))
     cmd = 'c15.tfidf %s %s' % (am, enc_vec(table))
-    out.append(Case(('tfidf', am), {'entry': 'get_tfidf'}, cmd, impl, _spec_same_mat(cmd, impl), nt,
+    out.append(Case(('tfidf', am), {'entry': 'get_tfidf'}, cmd, impl, _spec_def('c15.spec_tfidf', am + ' ' + enc_vec(table), impl), nt,
                     {'f': 'get_tfidf', 'matrix': md}, canon='mat'))
     return out
 
@@ -1132,35 +1429,19 @@ def cases_topk(ctx, rng, scores, k, sort):
                  {'f': 'top_k', 'scores': [float(s) for s in scores], 'k': k, 'sort': sort}, canon='topk')]
 
 
-def cases_safe_dot(ctx, rng):
-    """safe_sparse_dot: which product is taken for (ndarray | csr | operator) x (ndarray | csr | operator)."""
+def case_safe_dot(opa, opb, probe):
+    """One safe_sparse_dot case; an operand is ('nd', csr matrix whose dense form is passed) | ('csr', csr matrix) | ('op', expr)."""
     from sknetwork.linalg.basics import safe_sparse_dot
-    out = []
-    r, k, c = rand_dim(rng, 1, 4), rand_dim(rng, 1, 4), rand_dim(rng, 1, 4)
 
-    def operand(kind, shape):
-        if kind == 'nd':
-            a = rand_matrix(rng, *shape)
-            return ('nd', a.toarray()), 'nd ' + enc_mat(a), {'nd': mat_desc(a)}
-        if kind == 'csr':
-            a = rand_matrix(rng, *shape)
-            return ('csr', a), 'csr ' + enc_mat(a), {'csr': mat_desc(a)}
-        e = rand_leaf(rng, rng.choice(['slr', 'reg', 'nrm'] + (['con'] if shape[0] == shape[1] else [])), shape)
-        if e[0] == 'con':
-            e = ('con', rand_matrix(rng, shape[0], rand_dim(rng)), e[2])
-        return ('op', e), 'op ' + enc_expr(e), {'op': expr_desc(e)}
-
-    ka, kb = rng.choice([('nd', 'nd'), ('nd', 'csr'), ('nd', 'op'), ('op', 'csr'), ('csr', 'op'), ('op', 'nd'), ('csr', 'nd'),
-                         ('csr', 'csr'), ('op', 'op')])
-    if ka == 'op' and kb == 'op':
-        r = k = c
-    (ta, va), sa, da = operand(ka, (r, k))
-    (tb, vb), sb, db = operand(kb, (k, c))
-    probe = rand_vec(rng, c, 'int')
+    def enc(opd):
+        t, v = opd
+        return (t + ' ' + (enc_expr(v) if t == 'op' else enc_mat(v))), ({t: expr_desc(v)} if t == 'op' else {t: mat_desc(v)})
+    (sa, da), (sb, db) = enc(opa), enc(opb)
+    (ta, va), (tb, vb) = opa, opb
 
     def f():
-        a = build(va) if ta == 'op' else va.copy()
-        b = build(vb) if tb == 'op' else vb.copy()
+        a = build(va) if ta == 'op' else (va.toarray() if ta == 'nd' else va.copy())
+        b = build(vb) if tb == 'op' else (vb.toarray() if tb == 'nd' else vb.copy())
         res = safe_sparse_dot(a, b)
         if res is None:
             return 'ok none'
@@ -1169,54 +1450,88 @@ def cases_safe_dot(ctx, rng):
         if isinstance(res, np.ndarray):
             return 'ok mat ' + enc_dense(res if res.ndim == 2 else res.reshape(-1, 1))
         return 'ok op ' + enc_vec(res.dot(probe))
-    # operator classes without left/right_sparse_dot against a csr matrix end in scipy's LinearOperator.dot(sparse),
-    # which is not a supported call (numpy may even crash on it): never executed
-    if (ka, kb) in (('op', 'csr'), ('csr', 'op')) and (va if ka == 'op' else vb)[0] == 'nrm':
-        return out
     impl = _call(f)
+    f32 = any(t == 'op' and uses_float32(v) for t, v in (opa, opb))
+    tol, tol_tok = (TOL32, TOL32_TOK) if f32 else (TOL, TOL_TOK)
     spec = None
     if impl.startswith('ok mat ') or impl.startswith('ok op '):
-        spec = 'c15.spec_safedot %s %s %s %s %s' % (sa, sb, enc_vec(probe), impl[3:], TOL_TOK)
-    out.append(Case(('safedot', sa, sb, enc_vec(probe)), {'entry': 'safe_sparse_dot', 'a': ka, 'b': kb},
-                    'c15.safedot %s %s %s' % (sa, sb, enc_vec(probe)), impl, spec, True,
-                    {'f': 'safe_sparse_dot', 'a': da, 'b': db, 'probe': probe.tolist()}, canon='safedot'))
-    return out
+        spec = 'c15.spec_safedot %s %s %s %s %s' % (sa, sb, enc_vec(probe), impl[3:], tol_tok)
+    return Case(('safedot', sa, sb, enc_vec(probe)), {'entry': 'safe_sparse_dot', 'a': ta, 'b': tb},
+                'c15.safedot %s %s %s' % (sa, sb, enc_vec(probe)), impl, spec, True,
+                {'f': 'safe_sparse_dot', 'a': da, 'b': db, 'probe': probe_desc(probe)}, canon='safedot',
+                tol={'tol': tol, 'refused': False})
+
+
+def cases_safe_dot(ctx, rng):
+    """safe_sparse_dot: which product is taken for (ndarray | csr | operator) x (ndarray | csr | operator)."""
+    r, k, c = rand_dim(rng, 1, 4), rand_dim(rng, 1, 4), rand_dim(rng, 1, 4)
+
+    def operand(kind, shape):
+        if kind in ('nd', 'csr'):
+            return (kind, rand_matrix(rng, *shape, dtype='float64'))
+        e = rand_leaf(rng, rng.choice(['slr', 'reg', 'nrm'] + (['con'] if shape[0] == shape[1] else [])), shape)
+        if e[0] == 'con':
+            e = ('con', rand_matrix(rng, shape[0], rand_dim(rng)), e[2])
+        return ('op', e)
+
+    ka, kb = rng.choice([('nd', 'nd'), ('nd', 'csr'), ('nd', 'op'), ('op', 'csr'), ('csr', 'op'), ('op', 'nd'), ('csr', 'nd'),
+                         ('csr', 'csr'), ('op', 'op')])
+    if ka == 'op' and kb == 'op':
+        r = k = c
+    opa, opb = operand(ka, (r, k)), operand(kb, (k, c))
+    probe = rand_vec(rng, c, 'int')
+    # operator classes without left/right_sparse_dot against a csr matrix end in scipy's LinearOperator.dot(sparse),
+    # which is not a supported call (numpy may even crash on it): never executed
+    if (ka, kb) in (('op', 'csr'), ('csr', 'op')) and (opa if ka == 'op' else opb)[1][0] == 'nrm':
+        return []
+    return [case_safe_dot(opa, opb, probe)]
+
+
+def operand_from_desc(d):
+    if 'op' in d:
+        return ('op', expr_from_desc(d['op']))
+    t = 'nd' if 'nd' in d else 'csr'
+    return (t, mat_from_desc(d[t]))
 
 
 # ----------------------------------------------------------------------------------------------
 # comparison (tolerance of DESIGN 8)
 # ----------------------------------------------------------------------------------------------
-def _close_lists(a, b):
+def _close_lists(a, b, tol=TOL):
     if len(a) != len(b):
         return False
     sc = max([abs(x) for x in b] + [Fraction(0)])
-    return all(abs(x - y) <= TOL * (1 + sc) for x, y in zip(a, b))
+    return all(abs(x - y) <= tol * (1 + sc) for x, y in zip(a, b))
+
+
+def _tol(c):
+    return c.tol['tol'] if isinstance(c.tol, dict) and 'tol' in c.tol else TOL
 
 
 def _same(c, model, impl, spec_ok):
     if model.startswith('err') and impl.startswith('err'):
-        # same refusal; scipy / numpy word some errors with another class (TypeError vs ValueError)
-        return model == impl or (c.tol == 'refused' and {model, impl} <= {'err ValueError', 'err TypeError'})
+        # the same exception class is required (a shape ValueError turned into a TypeError is a difference)
+        return model == impl
     if not (model.startswith('ok') and impl.startswith('ok')):
         return False
     mt, it = model.split(' '), impl.split(' ')
     if c.canon == 'vec' and len(mt) == 2 and len(it) == 2:
-        return _close_lists(dec_ratlist(mt[1]), dec_ratlist(it[1]))
+        return _close_lists(dec_ratlist(mt[1]), dec_ratlist(it[1]), _tol(c))
     if c.canon == 'mat' and len(mt) == 4 and len(it) == 4:
         if mt[1:3] != it[1:3]:
             return False
         _, _, ra = dec_mat(mt[1:])
         _, _, rb = dec_mat(it[1:])
-        return _close_lists([x for r in ra for x in r], [x for r in rb for x in r])
+        return _close_lists([x for r in ra for x in r], [x for r in rb for x in r], _tol(c))
     if c.canon == 'safedot' and len(mt) == len(it) and mt[1] == it[1]:
         if mt[1] == 'mat':
             if mt[2:4] != it[2:4]:
                 return False
             _, _, ra = dec_mat(mt[2:])
             _, _, rb = dec_mat(it[2:])
-            return _close_lists([x for r in ra for x in r], [x for r in rb for x in r])
+            return _close_lists([x for r in ra for x in r], [x for r in rb for x in r], _tol(c))
         if mt[1] == 'op':
-            return _close_lists(dec_ratlist(mt[2]), dec_ratlist(it[2]))
+            return _close_lists(dec_ratlist(mt[2]), dec_ratlist(it[2]), _tol(c))
         return True
     if c.canon == 'multiset' and len(mt) == 2 and len(it) == 2:
         # the order of the stored entries of a row is a storage detail (DESIGN 8: orders the code does not define)
@@ -1251,7 +1566,7 @@ def evaluate(ctx, cases):
         if c.spec is None and c.run and str(c.impl).startswith('err'):
             # the implementation refused: justified only if the model refuses the same request
             c.spec = 'c15.spec_refused ' + c.run
-            c.tol = 'refused'
+            c.tol = dict(c.tol or {}, refused=True) if isinstance(c.tol, dict) or c.tol is None else {'refused': True}
     _evaluate(ctx, cases, same=_same)
 
 
@@ -1310,10 +1625,49 @@ def exhaustive_leaf_exprs():
             yield ('pol', a, [1.0, 2.0, 3.0])
 
 
+def degenerate_leaf_exprs():
+    """Leaves with a dimension 0.  Outside the domain of the definitions (second component False): a Normalizer without
+    columns (the regularised matrix `A + reg 1 1^T / n_col` is undefined, numpy gives nan) and a Laplacian without nodes."""
+    for r, c in [(2, 0), (0, 2), (0, 0), (1, 0), (0, 1)]:
+        a = sparse.csr_matrix((r, c), dtype=float)
+        yield ('slr', a, [], False), True
+        yield ('slr', a, [(np.ones(r), np.ones(c))], False), True
+        yield ('reg', a, 1), True
+        yield ('reg', a, 0), True
+        yield ('nrm', a, 0), c > 0
+        yield ('nrm', a, 1), c > 0
+        yield ('con', a, True), True
+        yield ('con', a, False), True
+        if r == c:
+            yield ('lap', a, 1, False), r > 0
+            yield ('pol', a, [1.0, 2.0]), True
+
+
+def cases_degenerate(ctx, rng):
+    """Zero-sized dimensions, and 2-d arrays without columns (scipy refuses to stack no column)."""
+    out = []
+    for leaf, inside in degenerate_leaf_exprs():
+        if not inside:
+            ctx.count('degenerate:outside-the-domain')
+            continue
+        out += cases_for_expr(ctx, rng, leaf, full=True)
+        ctx.count('degenerate:zero-dimension')
+    for leaf in [('slr', sparse.csr_matrix(np.array([[1., 2.], [0., 1.]])), [(np.ones(2), np.ones(2))], False),
+                 ('nrm', sparse.csr_matrix(np.array([[1., 2.], [0., 1.]])), 1),
+                 ('lap', sparse.csr_matrix(np.array([[1., 2.], [0., 1.]])), 1, False),
+                 ('con', sparse.csr_matrix(np.array([[1., 2.], [0., 1.]])), True),
+                 ('pol', sparse.csr_matrix(np.array([[1., 2.], [0., 1.]])), [1.0, 2.0])]:
+        qs_list = [{'query': q, 'x': probe_desc(np.zeros((2, 0)))} for q in ('dotmat', 'matmat', 'T.dotmat', 'rmatmat')]
+        out += cases_for_expr(ctx, rng, leaf, qs_list=qs_list)
+        ctx.count('degenerate:array-without-columns')
+    return out
+
+
 def build_cases(ctx):
     rng = ctx.rng
     quick = ctx.quick
     cases = []
+    cases += cases_degenerate(ctx, rng)
     # (a) exhaustive small leaves, each with one operation of its class on top
     for leaf in exhaustive_leaf_exprs():
         cases += cases_for_expr(ctx, rng, leaf, full=False)
@@ -1353,7 +1707,7 @@ def build_cases(ctx):
     mats = list(small_binary_matrices(2, 2))
     for i in range(60 if quick else 900):
         r, c = (rand_dim(rng),) * 2 if rng.random() < 0.6 else (rand_dim(rng), rand_dim(rng))
-        mats.append(rand_matrix(rng, r, c))
+        mats.append(rand_matrix(rng, r, c, dtype='float64'))
     for a in mats:
         cases += cases_matrix_utils(ctx, rng, a, full=not quick or rng.random() < 0.3)
         cases += cases_csr_utils(ctx, rng, a, full=not quick or rng.random() < 0.3)
@@ -1373,7 +1727,8 @@ def build_cases(ctx):
         ctx.count('utils:labels')
     for i in range(30 if quick else 600):
         r, c = rand_dim(rng), rand_dim(rng)
-        m = rand_matrix(rng, r, c, mode=rng.choice(['binary', 'messy', 'nonneg']), density=rng.choice([0.2, 0.4]))
+        m = rand_matrix(rng, r, c, mode=rng.choice(['binary', 'messy', 'nonneg']), density=rng.choice([0.2, 0.4]),
+                        dtype=rng.choice(['float64', 'bool', 'int64']))
         cases += cases_from_membership(ctx, rng, m)
     # (f) scores
     score_sets = [[], [1.0], [1.0, 1.0], [3, 1, 2], [1, 3, 3, 2, 3], [0, 0, 0, 0]]
@@ -1405,10 +1760,31 @@ DISPATCH_FILES = {'SparseLR': 'linalg/sparse_lowrank.py', 'Regularizer': 'linalg
                   'CoNeighbor': 'linalg/operators.py', 'Polynome': 'linalg/polynome.py'}
 
 
+SCIPY_COMBINATORS = {'_SumLinearOperator': {'_matvec', '_rmatvec', '_matmat', '_rmatmat', '_adjoint'},
+                     '_ScaledLinearOperator': {'_matvec', '_rmatvec', '_matmat', '_rmatmat', '_adjoint'},
+                     '_TransposedLinearOperator': {'_matvec', '_rmatvec', '_matmat', '_rmatmat'},
+                     '_AdjointLinearOperator': {'_matvec', '_rmatvec', '_matmat', '_rmatmat'}}
+
+
+def scipy_interface_guard():
+    """The model of scipy's generic arithmetic (Op.gsum / gscaled, transposition pushed to the leaves, `.H` re-dispatched)
+    mirrors scipy.sparse.linalg._interface of the pinned environment: another layout is a tool failure (the model has to
+    be re-read against the new scipy), not a finding about the repository."""
+    import scipy.sparse.linalg._interface as itf
+    for name, methods in SCIPY_COMBINATORS.items():
+        cls = getattr(itf, name, None)
+        if cls is None:
+            raise ToolFailure('scipy.sparse.linalg._interface has no %s: the model of the generic combinators must be revised' % name)
+        own = {m for m in ('_matvec', '_rmatvec', '_matmat', '_rmatmat', '_adjoint', '_transpose') if m in cls.__dict__}
+        if own != methods:
+            raise ToolFailure('scipy %s defines %s, the model assumes %s' % (name, sorted(own), sorted(methods)))
+
+
 def dispatch_obligations(ctx):
     """Parse the anchored sources of the working tree (overlay mirror) and let the Lean side compare the class tables
     with the ones the model's dispatch assumes."""
     import ast
+    scipy_interface_guard()
     root = os.path.join(ctx.overlay_root, 'sknetwork')
     lines, names = [], []
     for cls, rel in DISPATCH_FILES.items():
@@ -1417,9 +1793,19 @@ def dispatch_obligations(ctx):
         if node is None:
             ctx.broken('dispatch:' + cls, 'class %s not found in %s' % (cls, rel), {'entry': cls, 'obligation': 'dispatch'})
             continue
-        base = node.bases[0].id if node.bases and isinstance(node.bases[0], ast.Name) else '?'
-        methods = sorted(n.name for n in node.body
-                         if isinstance(n, (ast.FunctionDef, ast.AsyncFunctionDef)) and n.name in DISPATCH_RELEVANT)
+        # every base (a mixin as second base changes the method resolution) and every binding of a dispatch-relevant
+        # name in the class body: `def`s, alias assignments (`_adjoint = _transpose`), annotated assignments
+        base = '+'.join(ast.unparse(b) for b in node.bases) + ''.join('+' + ast.unparse(k) for k in node.keywords) or '?'
+        bound = set()
+        for n in node.body:
+            if isinstance(n, (ast.FunctionDef, ast.AsyncFunctionDef, ast.ClassDef)):
+                bound.add(n.name)
+            elif isinstance(n, ast.Assign):
+                for t in n.targets:
+                    bound.update(x.id for x in ast.walk(t) if isinstance(x, ast.Name))
+            elif isinstance(n, (ast.AnnAssign, ast.AugAssign)) and isinstance(n.target, ast.Name):
+                bound.add(n.target.id)
+        methods = sorted(bound & DISPATCH_RELEVANT)
         lines.append('c15.dispatch %s %s %s' % (cls, base, ','.join(methods) if methods else '-'))
         names.append(cls)
     answers = ctx.lean(lines) if lines else []
@@ -1437,13 +1823,16 @@ def dispatch_obligations(ctx):
 
 
 def corpus_cases(ctx):
+    import random
     p = os.path.join(VERIF, 'corpus', 'C15.jsonl')
     out = []
+    crng = random.Random(1515)
     if os.path.exists(p):
         for ln in open(p):
             ln = ln.strip()
             if ln and not ln.startswith('#'):
-                out += cases_from_payload(ctx, json.loads(ln))
+                # corpus lines without stored probes draw them from a generator of their own: the same in every seed
+                out += cases_from_payload(ctx, json.loads(ln), rng=crng)
                 ctx.count('corpus')
     return out
 
@@ -1513,7 +1902,7 @@ def search(ctx, pending):
     for i in range(600):
         e = grow(rng, rand_leaf(rng), rng.randint(0, 3), 0.0)
         cases += cases_for_expr(ctx, rng, e, full=True)
-    for a in list(small_binary_matrices(2, 3)) + [rand_matrix(rng, rand_dim(rng), rand_dim(rng)) for _ in range(100)]:
+    for a in list(small_binary_matrices(2, 3)) + [rand_matrix(rng, rand_dim(rng), rand_dim(rng), dtype='float64') for _ in range(100)]:
         cases += cases_matrix_utils(ctx, rng, a, full=True) + cases_csr_utils(ctx, rng, a, full=True)
     for n in range(0, 5):
         for k in range(0, n + 2):
@@ -1533,19 +1922,34 @@ DEFINITIONAL = {'get_norms', 'directed2undirected', 'bipartite2directed', 'bipar
                 'get_neighbors', 'get_degrees', 'from_membership'}
 
 
-def cases_from_payload(ctx, case):
-    rng = ctx.rng
+def cases_from_payload(ctx, case, rng=None):
+    """Exactly the recorded case: expression + query + probe, program + checked object + query, utility + arguments."""
+    rng = rng or ctx.rng
     if 'expr' in case:
         e = expr_from_desc(case['expr'])
-        if e[0] == 'T' and case.get('query', '').startswith('T.'):
-            e = e[1]
-        return cases_for_expr(ctx, rng, e, full=True)
+        qs = case.get('qs')
+        if qs is None:
+            return cases_for_expr(None, rng, e, full=True)            # old corpus lines: every query, fresh probes
+        if qs.get('query') == 'inputs-unchanged':
+            inputs_unchanged(ctx, e)
+            return [make_case(e, {'query': 'shape'}, expr_sig(e, 'shape'), {'expr': case['expr']}, True)]
+        return cases_for_expr(None, rng, e, qs_list=[qs])
     if 'program' in case:
-        return cases_program(ctx, rng, [stmt_from_desc(d) for d in case['program']])
+        program = [stmt_from_desc(d) for d in case['program']]
+        if 'qs' in case and 'checked' in case:
+            return cases_program(ctx, rng, program, only={'after': case.get('after', len(program) - 1),
+                                                          'checked': case['checked'], 'role': case.get('role'),
+                                                          'qs': case['qs']})
+        return cases_program(ctx, rng, program)
     if 'shared' in case:
-        return cases_shared(ctx, rng, expr_from_desc(case['leaf']))
+        x = probe_from_desc(case['x']) if isinstance(case.get('x'), dict) else None
+        return cases_shared(ctx, rng, expr_from_desc(case['leaf']), only=case['shared'], x=x)
     f = case.get('f')
-    if f in ('normalize', 'get_norms', 'diagonal_pseudo_inverse', 'get_laplacian', 'directed2undirected',
+    if f == 'safe_sparse_dot':
+        return [case_safe_dot(operand_from_desc(case['a']), operand_from_desc(case['b']), probe_from_desc(case['probe']))]
+    if f == 'diagonal_pseudo_inverse':
+        return [case_pinv(case['weights'])]
+    if f in ('normalize', 'get_norms', 'get_laplacian', 'directed2undirected',
              'bipartite2directed', 'bipartite2undirected', 'get_tfidf') and 'matrix' in case:
         return cases_matrix_utils(ctx, rng, mat_from_desc(case['matrix']), full=True)
     if f in ('get_neighbors', 'get_degrees', 'get_weights'):
@@ -1560,8 +1964,9 @@ def cases_from_payload(ctx, case):
 
 
 def replay(ctx, payload):
+    """Re-run exactly the recorded case against the current tree (never a fresh random run)."""
     case = payload.get('case') or {}
     cs = cases_from_payload(ctx, case)
-    if not cs:
-        cs = build_cases(ctx)
+    if not cs and not ctx.spec_failures:
+        raise ToolFailure('the replay file describes no case this harness can rebuild: %s' % json.dumps(case)[:300])
     evaluate(ctx, cs)
